@@ -83,6 +83,7 @@ inductive BodyOp
   | add (types : List TypeId) (name : String) (v : Nat)
   | addFactory (types : List TypeId) (name : String) (fid : Nat)
   | getNowait (ty : TypeId) (name : String) (optional : Bool)
+  | get (ty : TypeId) (name : String) (optional : Bool)      -- `await get_resource()` (asynchronous callbacks)
   | current
   deriving DecidableEq, Repr
 
@@ -331,6 +332,27 @@ def ctxGet (cid : CtxId) (x : Ctx) (t : TaskId) (k : Key) (optional : Bool) : Ct
               (x'', registeredVal x'' k :: evs)
       | Option.none => (x, [if optional then .none else .notFound])
 
+/-- `await Context.get_resource()` made by a teardown callback, which runs to completion before the next
+callback is taken: the lookup of `ctxGet` where that one does not suspend. Where it would (a generation of the
+factory is in flight, or the factory is gated) the teardown itself would be suspended in the middle of a
+callback; that is outside what `runTeardown` describes, the answer is `blocked` and nothing changes (the
+harness does not generate it). -/
+def ctxGetNow (cid : CtxId) (x : Ctx) (k : Key) (optional : Bool) : Ctx × List Out :=
+  if !x.state.usable then (x, [.runtimeError x.state])
+  else match alookup k x.res with
+    | some cont => (x, [.val cont.val])
+    | Option.none =>
+      match alookup k x.fac with
+      | some f =>
+        if (x.pending.find? (fun p => p.fid = f.fid)).isSome || (f.isAsync && f.gated) then (x, [.blocked])
+        else
+          match callFactory cid x f with
+          | (x', Option.none) => (x', [.raisedExc (.exn 0)])
+          | (x', some v) =>
+            let (x'', evs) := storeGenerated cid x' f v
+            (x'', registeredVal x'' k :: evs)
+      | Option.none => (x, [if optional then .none else .notFound])
+
 /-- Re-run the lookups of the tasks that waited for a generation (FIFO). A waiter that
 misses again calls the factory itself; gated factories then leave a new pending entry. -/
 def resumeWaiters (cid : CtxId) : Ctx → List (TaskId × Key × Bool) → Ctx × List Out
@@ -428,6 +450,7 @@ def runBodyOp (cid : CtxId) (cur : Option CtxId) (x : Ctx) : BodyOp → Ctx × L
   | .addFactory types name fid =>
     ctxAddFactory cid x ⟨types, name, fid, Option.none, false, false, 0, false⟩
   | .getNowait ty name opt => ctxGetNowait cid x ⟨ty, name⟩ opt
+  | .get ty name opt => ctxGetNow cid x ⟨ty, name⟩ opt
   | .current => (x, [.cur cur])         -- current_context() of the task that is leaving the block
 
 def runBody (cid : CtxId) (cur : Option CtxId) : Ctx → List BodyOp → Ctx × List Out
